@@ -19,7 +19,7 @@ func main() {
 	fn := flag.String("func", "", "harness function name(s), comma separated, or prefix*")
 	tables := flag.String("tables", "", "gf2p16 table dump")
 	solverBin := flag.String("solver", "z3", "solver binary")
-	timeout := flag.Int("timeout-ms", 60000, "per-query timeout")
+	timeout := flag.Int("timeout-ms", 120000, "per-query timeout")
 	maxPaths := flag.Int("max-paths", 0, "path limit")
 	maxSteps := flag.Int("max-steps", 0, "per-path SSA step limit")
 	out := flag.String("out", "", "result JSON file (default stdout)")
